@@ -38,10 +38,9 @@ Definition ls_listed : listing := [
   ("datasource/sql/exec.commonHook", "CleanCommonHook", "CleanCommonHook")
 ].
 
-(* listed findings (ids leak.refresh-conn, leak.undo-conn): functions that take a pooled
+(* listed findings (id leak.refresh-conn): functions that take a pooled
    connection and never give it back *)
 Definition ls_leak_listed : list string := [
-  "datasource/sql/datasource/base.BaseTableMetaCache.refresh";
-  "datasource/sql/undo/base.BaseUndoLogManager.Undo"
+  "datasource/sql/datasource/base.BaseTableMetaCache.refresh"
 ].
 
